@@ -91,6 +91,14 @@ package volatility
 //@ ensures[C04] forall kk :: 0 <= kk && kk < len(result0) ==> hor(result0, kk) <= max(hor(highs, kk + (k.IdlePeriod())), max(hor(lows, kk + (k.IdlePeriod())), hor(closings, kk + (k.IdlePeriod()))))
 //@ ensures[C04] forall kk :: 0 <= kk && kk < len(result1) ==> hor(result1, kk) <= max(hor(highs, kk + (k.IdlePeriod())), max(hor(lows, kk + (k.IdlePeriod())), hor(closings, kk + (k.IdlePeriod()))))
 //@ ensures[C04] forall kk :: 0 <= kk && kk < len(result2) ==> hor(result2, kk) <= max(hor(highs, kk + (k.IdlePeriod())), max(hor(lows, kk + (k.IdlePeriod())), hor(closings, kk + (k.IdlePeriod()))))
+//@ use ema_cong(closingsSplice[1], closings, k.Ema.Period, k.Ema.Smoothing / (k.Ema.Period + 1), _)
+//@ step[C01,C15] "middle" forall kk :: 0 <= kk && kk < len(result1) ==> result1[kk] == emaS(closings, k.Ema.Period, k.Ema.Smoothing / (k.Ema.Period + 1), kk + (k.Atr.IdlePeriod() - k.Ema.IdlePeriod()))
+//@ ensures[C01] "middle" forall kk :: 0 <= kk && kk < len(result1) ==> result1[kk] == emaS(closings, k.Ema.Period, k.Ema.Smoothing / (k.Ema.Period + 1), kk + (k.Atr.IdlePeriod() - k.Ema.IdlePeriod()))
+//@ guarantees[C01] "bands" forall kk :: 0 <= kk && kk < len(result1) ==> result0[kk] == result1[kk] + 2 * res(Atr_Compute, 0)[kk] && result2[kk] == result1[kk] - 2 * res(Atr_Compute, 0)[kk]
+//@ use psum_cong(trS(highs, lows, closingsSplice[0]), trS(highs, lows, closings), _)
+//@ step[C01] "atr-sma" istype(k.Atr.Ma, "trend.Sma") ==> (forall kk :: 0 <= kk && kk < len(result1) ==> res(Atr_Compute, 0)[kk] == smaS(trS(highs, lows, closings), as(k.Atr.Ma, "trend.Sma").Period)[kk])
+//@ ensures[C01] "bands-sma" istype(k.Atr.Ma, "trend.Sma") ==> (forall kk :: 0 <= kk && kk < len(result1) ==> result0[kk] == result1[kk] + 2 * smaS(trS(highs, lows, closings), as(k.Atr.Ma, "trend.Sma").Period)[kk] && result2[kk] == result1[kk] - 2 * smaS(trS(highs, lows, closings), as(k.Atr.Ma, "trend.Sma").Period)[kk])
+//@ ensures[C15] "ordered" posma(k.Atr.Ma) && (forall j :: 0 <= j && j < len(highs) ==> lows[j] <= highs[j]) ==> (forall kk :: 0 <= kk && kk < len(result1) ==> result0[kk] >= result1[kk] && result1[kk] >= result2[kk])
 
 // moving standard deviation: sqrt of the mean squared deviation from the window mean (population form)
 //@ stream stdS(c stream, P int)[k] = sqrt(devsq(c, k, k + P, (psum(c, k + P) - psum(c, k)) / P) / P)
